@@ -92,7 +92,7 @@ META["C07"] = M(
 META["C08"] = M(
     shards={"quick": 16, "thorough": 64}, budget={"quick": 45, "thorough": 800},
     floors={"quick": {"evals": 4000, "distinct": 1500}, "thorough": {"evals": 150000, "distinct": 50000}},
-    required=["diag", "trace", "structural-vs-generic"],
+    required=["diag", "trace", "structural-vs-generic", "default-stays-exact"],
     rule="square operator trees over Dense, Identity, Diagonal, ScalarMul, Sum, BlockDiag with multiplicities, Kronecker/KronSum, "
          "products, Tridiagonal, Triangular, Sparse, generic and no_dispatch operators; all offsets k in (-n, n) for n <= 12 and "
          "a spread incl. +-99/100/101 for n in {99,100,101,150,199,200,201,230}; alg Exact / Auto (default tol) / omitted; "
